@@ -42,6 +42,21 @@ def make_exc(name, msg='boom'):
         return UnicodeEncodeError('ascii', '\xff', 0, 1, msg)
     if name == 'StopIteration':
         return StopIteration(msg)
+    if name.startswith('Arg:'):
+        # an exception whose first argument is a structured payload (validation-library style)
+        kind = name[4:]
+        payload = {'dict': {'cell': 'A1'}, 'list': ['#N/A', 'detail'], 'set': set(['x']), 'none': None, 'int': 5,
+                   'bytes': b'\xff\xfe', 'exc': ValueError('inner'), 'nested': [[1, [2]]], 'float': float('nan'),
+                   'tuple': ('#N/A',), 'bool': True, 'obj': V.Opaque(), 'code': '#N/A', 'codelist': ['#DIV/0!'],
+                   'surrogate': '\ud800'}[kind]
+        cls = {'dict': Exception, 'list': ValueError, 'set': KeyError, 'exc': RuntimeError, 'code': LookupError}.get(kind, Exception)
+        return cls(payload)
+    if name.startswith('XLArg:'):
+        kind = name[6:]
+        payload = {'dict': {'k': 1}, 'list': ['#N/A'], 'none': None, 'int': 7, 'two': '#N/A'}[kind]
+        if kind == 'two':
+            return E.XLError('#N/A', 'detail')
+        return E.XLError(payload)
     if name == 'NoArgs':
         return Exception()
     if name == 'TupleArgs':
@@ -68,7 +83,18 @@ EXC_CATALOGUE = [
     'XL:#ERROR!', 'XL:#DIV/0!', 'XL:#NAME?', 'XL:#N/A', 'XL:#NULL!', 'XL:#NUM!', 'XL:#REF!',
     'XL:#VALUE!', 'XL:#GETTING_DATA', 'XLFRESH', 'CodeMsg', 'LongMsg', 'BadStr', 'BadRepr',
     'NoArgs', 'TupleArgs', 'Exception',
+    'Arg:dict', 'Arg:list', 'Arg:set', 'Arg:none', 'Arg:int', 'Arg:bytes', 'Arg:exc', 'Arg:nested', 'Arg:float',
+    'Arg:tuple', 'Arg:bool', 'Arg:obj', 'Arg:code', 'Arg:codelist', 'Arg:surrogate',
+    'XLArg:dict', 'XLArg:list', 'XLArg:none', 'XLArg:int', 'XLArg:two',
 ]
+
+
+def describe_cell(cell):
+    """What a spreadsheet host derives from a Cell: everything in the payload matters."""
+    try:
+        return '%s|%s|%s|%s|%s' % (cell.label, cell.row.index, cell.col.index, bool(cell.row.is_absolute), bool(cell.col.is_absolute))
+    except Exception as e:
+        return 'bad cell: %s' % type(e).__name__
 
 
 def cell_payload(cell):
@@ -240,6 +266,16 @@ class World(object):
         if a == 'noset':
             fired['setter_skipped'] += 1
             return None
+        if a == 'table':
+            # the host looks the reference up in its sheet: the value is a function of the payload
+            fired['table_lookup'] += 1
+            if setter is None:
+                return None
+            if kind == 'callCellValue':
+                setter(describe_cell(args[0]))
+            elif kind == 'callRangeValue':
+                setter([[describe_cell(args[0]), describe_cell(args[1])]])
+            return None
         if a == 'echo':
             return args[0] if args else None
         if a == 'echoall':
@@ -266,6 +302,9 @@ class World(object):
                 setter(act['_o'])
             return None
         if a in ('nested', 'nested_build'):
+            if self.depth > act.get('maxdepth', 99):
+                fired['nested_suppressed_by_depth'] += 1
+                return None
             if a == 'nested_build':
                 from hotxlfp import Parser
                 fired['nested_build'] += 1
@@ -282,6 +321,8 @@ class World(object):
             if 'tap' in act:
                 self.taps.setdefault(act['tap'], []).append(res)
             val = nested_value(res)
+            if not act.get('use', True):
+                return None       # an audit hook: evaluates, hands nothing on
             if setter is None:
                 return val
             if val is not None:
